@@ -22,8 +22,10 @@ EXHAUSTIVE = {"quick": True, "thorough": True}
 
 UFUNCS = sorted({f for f in vars(np).values() if isinstance(f, np.ufunc) and f.signature is None and f.nin <= 2 and f.nout <= 2},
                 key=lambda f: f.__name__)
-DTS = ["b1", "i8", "u1", "f4", "f8", "c8", "c16"]
+DTS = ["b1", "i8", "u1", "f4", "f8", "c8", "c16", ">f8", ">c8"]  # (the last two: byte-swapped, i.e. non-native, data as read from big-endian files)
 G.DT.setdefault("i2", np.int16)
+G.DT.setdefault(">f8", np.dtype(">f8"))
+G.DT.setdefault(">c8", np.dtype(">c8"))
 ARR1 = ["s", "s_dask"]
 ARR2 = ["ss", "sa", "as", "sk", "ks", "sq", "qs", "out", "out_tuple", "ss_dask", "s0d", "bcast"]
 
@@ -119,7 +121,8 @@ def one_ufunc_case(pb, f, dt, arr, cls, stt=None):
             check(same_bits(values(a.data), x), "{}: operand modified", what)
             return "ok"
         # two inputs
-        k = {"b1": True, "i8": 3, "u1": 3, "f4": np.float32(1.5), "f8": 2.5, "c8": np.complex64(1 + 2j), "c16": 2 - 1j}[dt]
+        k = {"b1": True, "i8": 3, "u1": 3, "f4": np.float32(1.5), "f8": 2.5, "c8": np.complex64(1 + 2j), "c16": 2 - 1j, ">f8": 2.5,
+             ">c8": np.complex64(1 + 2j)}[dt]
         q = None
         if arr in ("sq", "qs"):
             if dt not in ("f4", "f8"):
@@ -237,8 +240,9 @@ def replay_ufunc(case, stt):
 def large_case(draw):
     return {"ufunc": draw(st.sampled_from(["add", "multiply", "absolute", "conjugate", "exp", "less", "divmod", "modf", "negative", "maximum", "square"])),
             "dtype": draw(st.sampled_from(["f4", "f8", "c8", "c16", "i8"])), "n": draw(st.sampled_from([65535, 65536, 65537, 70001, 131073])),
-            "arr": draw(st.sampled_from(["s", "ss", "sa", "as", "out", "inplace"])), "cls": draw(st.sampled_from(["Signal", "RadioSignal", "BasebandSignal",
-                                                                                                             "IntensitySignal"]))}
+            "arr": draw(st.sampled_from(["s", "ss", "sa", "as", "out", "inplace", "dask_near_dup", "dask_near_dup"])),
+            "cls": draw(st.sampled_from(["Signal", "RadioSignal", "BasebandSignal", "IntensitySignal"])),
+            "edits": draw(st.lists(st.integers(0, 2 * 65535 - 1), min_size=1, max_size=3, unique=True))}
 
 
 def run_large(case, stt):
@@ -270,6 +274,26 @@ def run_large(case, stt):
             elif arr == "as":
                 r = f(x, b)
                 a = b
+            elif arr == "dask_near_dup":
+                # a Dask-backed signal combined with two LONG plain arrays that differ in only a few elements, both results in one graph
+                import dask
+
+                if f.nout != 1:
+                    stt.label("skip_near_dup_multi_output")
+                    return
+                y2 = y.copy()
+                for e in case.get("edits", [1]):
+                    y2.reshape(-1)[e] = y2.reshape(-1)[e] + y2.dtype.type(1)
+                import dask.array as da
+
+                ad = mk_sig(pb, cls, da.from_array(x.copy(), chunks=(n // 3 + 1, 2)), 0)
+                r1, r2 = f(ad, y), f(ad, y2)
+                o1, o2 = dask.compute(r1.data, r2.data, scheduler="synchronous")
+                check(same_bits(o1, f(x, y)) and same_bits(o2, f(x, y2)), "{} of a Dask-backed signal with two arrays of {} samples differing in {} "
+                      "element(s), computed together: values differ from the ufunc on the arrays", case["ufunc"], n, len(case.get("edits", [1])))
+                stt.nt()
+                stt.label("dask_near_duplicate_operands")
+                return
             elif arr == "out":
                 tg = tuple(mk_sig(pb, cls, np.zeros_like(o), 2) for o in outs)
                 r = f(a, b, out=tg if len(tg) > 1 else tg[0])
@@ -357,13 +381,13 @@ def run_op(case, stt):
         elif oth == "arr_bcast":
             b_raw = b = y[:1].copy()
         elif oth == "scalar":
-            b_raw = b = {"b1": True, "i8": 3, "u1": 2, "f4": 1.5, "f8": 2.5, "c8": 1 + 2j, "c16": 2 - 1j}[dt]
+            b_raw = b = {"b1": True, "i8": 3, "u1": 2, "f4": 1.5, "f8": 2.5, "c8": 1 + 2j, "c16": 2 - 1j, ">f8": 2.5, ">c8": 1 + 2j}[dt]
         elif oth == "npscalar":
             b_raw = b = x.dtype.type(3)
         elif oth == "npscalar_wide":
             # a NumPy scalar of the widest type of its kind: NumPy promotes the result (unlike a Python scalar)
             b_raw = b = {"b1": np.int64(3), "i8": np.int64(3), "u1": np.int64(300), "f4": np.float64(2.5), "f8": np.float64(2.5),
-                         "c8": np.complex128(1 + 2j), "c16": np.complex128(1 + 2j)}[dt]
+                         "c8": np.complex128(1 + 2j), "c16": np.complex128(1 + 2j), ">f8": np.float64(2.5), ">c8": np.complex128(1 + 2j)}[dt]
         else:
             if dt not in ("f4", "f8") or opn in ("&", "|", "^", "<<", ">>"):
                 stt.label("skip_quantity")
@@ -407,7 +431,7 @@ def run_op(case, stt):
 
 @st.composite
 def chain_case(draw):
-    dt = draw(st.sampled_from(["i8", "f4", "f8", "c8", "c16", "u1"]))
+    dt = draw(st.sampled_from(["i8", "f4", "f8", "c8", "c16", "u1", ">f8", ">c8"]))
     cls = draw(st.sampled_from(["Signal", "RadioSignal", "IntensitySignal", "BasebandSignal"]))
     steps = draw(st.lists(st.tuples(st.sampled_from(sorted(IOPS)), st.sampled_from(["scalar", "fscalar", "cscalar", "arr", "sig", "arr_f8", "view"])),
                           min_size=1, max_size=5))
@@ -576,7 +600,8 @@ SUBS = [
             "second operand, out= form, or two outputs" % len(UFUNCS), pieces_quick=8, pieces_thorough=16),
     Sub("long_arrays", large_case(), run_large,
         "11 ufuncs on signals of 65535..131073 samples (block boundaries at 2^16) in the arrangements signal / signal-signal / signal-array / "
-        "array-signal / out= / in-place; bit-identical to NumPy on the arrays; all non-trivial", quick=60, thorough=1000, pieces_quick=4),
+        "array-signal / out= / in-place / Dask-backed signal with two long plain arrays differing in 1-3 elements, both results computed in one "
+        "graph; bit-identical to NumPy on the arrays; all non-trivial", quick=120, thorough=1500, pieces_quick=4),
     Sub("operators", op_case(), run_op,
         "the 18 binary and 4 unary Python operators on every class (admitted dtypes) with a signal / signal of another class / array / "
         "broadcast array / Python and NumPy scalars / dimensionless Quantity on either side, NumPy and Dask; operators without a loop must raise "
